@@ -424,8 +424,37 @@ def as_branch(e):
             c = strip(c["e"])
             t, el = el, t
             continue
+        dm = _de_morgan(c)
+        if dm is not None:          # `!a || !b` == `!(a && b)`, `!a && !b` == `!(a || b)`
+            c = dm
+            t, el = el, t
+            continue
         break
     return c, t, el
+
+
+_DUAL = {"||": "&&", "&&": "||", "Or": "And", "And": "Or"}
+
+
+def _de_morgan(c):
+    """for a `||` (or `&&`) tree ALL of whose leaves are negations: the dual tree over the un-negated leaves, else None"""
+    if c.get("k") != "Binary" or c.get("op") not in _DUAL:
+        return None
+    op = c["op"]
+
+    def conv(n):
+        n = strip(n)
+        while n.get("k") == "DropTemps":
+            n = strip(n["e"])
+        if n.get("k") == "Binary" and n.get("op") == op:
+            l, r = conv(n["l"]), conv(n["r"])
+            if l is None or r is None:
+                return None
+            return dict(n, op=_DUAL[op], l=l, r=r)
+        if n.get("k") == "Unary" and n.get("op") in ("!", "Not"):
+            return strip(n["e"])
+        return None
+    return conv(c)
 
 def leaves(e):
     """does control never fall out of the end of expression/block `e`? (return / break / continue on every path)"""
